@@ -318,8 +318,11 @@ impl Prop for C08 {
             1 => select(vec!["not json", "{\"input\": 5}", "[1,2]", "{\"target\": \"x\"}"]).prop_map(|s| Err(s.to_string())),
         ];
         let files = prop_oneof![
-            10 => proptest::collection::vec(proptest::collection::vec(line.clone(), 0..=12), 1..=3),
-            1 => proptest::collection::vec(proptest::collection::vec(line, 0..=60), 1..=5),
+            150 => proptest::collection::vec(proptest::collection::vec(line.clone(), 0..=12), 1..=3),
+            15 => proptest::collection::vec(proptest::collection::vec(line.clone(), 0..=60), 1..=5),
+            // more than 256 lines in one file (counters and block sizes), alone or next to a short file
+            1 => (proptest::collection::vec(line.clone(), 250..=270), proptest::collection::vec(line, 0..=3), any::<bool>())
+                .prop_map(|(long, short, two)| if two { vec![short, long] } else { vec![long] }),
         ];
         let ctx = || {
             let mut v: Vec<String> = LETTERS.iter().map(|s| s.to_string()).collect();
@@ -387,6 +390,7 @@ impl Prop for C08 {
         out.label_if(c.threads > 0, "threads>0");
         out.label_if(c.shuffle, "shuffle");
         out.label_if(c.seed.is_none(), "no_seed");
+        out.label_if(c.files.iter().any(|f| f.len() > 256), "file_with_more_than_256_lines");
         out.label_if(c.sort, "sort");
         out.label_if(c.strategy == 2, "weighted");
         out.label_if(c.strategy == 1, "interleaved");
